@@ -46,7 +46,9 @@ def gen_hierarchy(rng):
             enw = rng.choice(regouts)[0]
         elif mode == 'reg':
             enw = rng.choice(ens)
-        drv = py4hw.ClockDriver('g%d' % k, base=hw.clockDriver, enable=enw, wire=hw.wire('clk_g%d' % k))
+        # distinct drivers are distinct domains whatever they are called: half of them share one name (the reusable
+        # sub-block that creates its own ClockDriver('gclk', ...) and is instantiated several times)
+        drv = py4hw.ClockDriver(rng.choice(['gclk', 'g%d' % k]), base=hw.clockDriver, enable=enw, wire=hw.wire('clk_g%d' % k))
         doms.append({'drv': drv, 'enw': enw})
         return k
 
